@@ -894,8 +894,19 @@ fn c08_oracle(sc: &Scenario, ex: &Execution, info: &mut CaseInfo) -> Vec<Finding
 // ---- C04 -----------------------------------------------------------------------------------
 
 fn values_strategy(t: Tier) -> BoxedStrategy<Scenario> {
+    at_payload_points(values_strategy_base(t))
+}
+
+/// streams added (from sole and from shared parents, by several threads) while producers wrap the
+/// ring and consumers are suspended inside Clone / view closures (round-5 seed C04-5: a writer
+/// that misses a freshly added stream overwrites the slot its consumer is still cloning)
+fn values_addstream_strategy(t: Tier) -> BoxedStrategy<Scenario> {
+    at_payload_points(addstream_strategy(t))
+}
+
+fn at_payload_points(s: BoxedStrategy<Scenario>) -> BoxedStrategy<Scenario> {
     // half of the cases use the policy that preempts at the point inside Clone / view closures
-    (values_strategy_base(t), prop_oneof![Just(0u8), Just(40u8), Just(100u8), Just(160u8)], any::<bool>())
+    (s, prop_oneof![Just(0u8), Just(40u8), Just(100u8), Just(160u8)], any::<bool>())
         .prop_map(|(mut sc, stay_target, on)| {
             if on {
                 sc.sched.policy = crate::rt::Policy::Walk {
@@ -921,6 +932,7 @@ fn values_strategy_base(t: Tier) -> BoxedStrategy<Scenario> {
             w_sendk: 1,
             w_clone_rx: 1,
             leave: 2,
+            fork: 2,
             ..TrafficParams::default()
         },
             t,
@@ -1398,8 +1410,13 @@ pub fn registry() -> Vec<PropDef> {
                     source: Source::Systematic { strategy: values_strategy, cases: cases_fn!(20, 12) },
                     oracle: c04_oracle,
                 },
+                Part {
+                    name: "while_streams_are_added",
+                    source: Source::Random { strategy: values_addstream_strategy, cases: cases_fn!(3000, 50000) },
+                    oracle: c04_oracle,
+                },
             ],
-            rule: "traffic with N in {1,2,4}, 1-3 consumers per stream, shared, single-consumer and view receivers; the payload's Clone and every view closure contain a scheduling point (targeted by a dedicated schedule policy) so a clone/view can be suspended while producers wrap the ring; oracle = payload self-checks (well-formed, live in the ledger, unchanged) at the start and end of every clone/view and on every delivered value; non-trivial = some clone/view was suspended while other threads ran AND the ring wrapped",
+            rule: "traffic with N in {1,2,4}, 1-3 consumers per stream, shared, single-consumer and view receivers, streams added during traffic (consumer forks; the add_stream scenarios of C10); the payload's Clone and every view closure contain a scheduling point (targeted by a dedicated schedule policy) so a clone/view can be suspended while producers wrap the ring; oracle = payload self-checks (well-formed, live in the ledger, unchanged) at the start and end of every clone/view and on every delivered value; non-trivial = some clone/view was suspended while other threads ran AND the ring wrapped",
             assumptions: vec![SC_ASSUME, SAMPLE_ASSUME, "a payload write/read is one step for the scheduler: tearing inside one memcpy is not modelled"],
         },
         PropDef {
